@@ -1,6 +1,7 @@
 package main
 
 import (
+	"unsafe"
 	"reflect"
 	"runtime"
 	"bufio"
@@ -161,7 +162,15 @@ func holdOutput(b []byte, hexv string) {
 	held[heldNext%len(held)] = heldOut{b: b, sum: fnv64(b), hexv: hexv}
 	heldNext++
 }
-func okStr(s string) string  { return "ok " + hx([]byte(s)) }
+// A returned string is held the same way, through a read-only view of its bytes: Go's strings are immutable only as
+// long as nobody builds them over a buffer that is written again (unsafe.String over pooled memory).
+func okStr(s string) string {
+	h := hx([]byte(s))
+	if len(s) >= 8 {
+		holdOutput(unsafe.Slice(unsafe.StringData(s), len(s)), h)
+	}
+	return "ok " + h
+}
 func hxList(bs [][]byte, sep string) string {
 	if len(bs) == 0 {
 		return "."
